@@ -351,6 +351,12 @@ int main(int argc, char** argv) {
                 ". non-trivial = some step ineligible when attempted or a handler passes over pending predecessors";
       ok = true;
       for (int n = 1; n <= N && ok; ++n) ok = enum_c05(n, K, len);
+      // optional second scope, e.g. --N2 2 --K2 2 --len2 4 (two sequences on fewer participants)
+      if (ok && A.has("N2")) {
+        int N2 = static_cast<int>(A.geti("N2", 2)), K2 = static_cast<int>(A.geti("K2", 2)), len2 = static_cast<int>(A.geti("len2", 4));
+        ST.rule += "; second scope N<=" + std::to_string(N2) + " K<=" + std::to_string(K2) + " len<=" + std::to_string(len2);
+        for (int n = 2; n <= N2 && ok; ++n) ok = enum_c05(n, K2, len2);
+      }
     }
     if (!ok && !g_last_fail.empty()) ST.violations.push_back({g_last_fail, "oracle disagreement in the exhaustive scope (see replay header)"});
     ST.write(A.out);
